@@ -786,3 +786,25 @@ M("C06-benign-changed-flag-or-assign", "C06", "src/cppparser/cppExpression.cxx",
   "      ->as_expression();\n    any_changed = any_changed || (rep->_u._op._op1 != _u._op._op1);\n    break;\n\n  case T_typeid_type:",
   "      ->as_expression();\n    if (rep->_u._op._op1 != _u._op._op1) {\n      any_changed = true;\n    }\n    break;\n\n  case T_typeid_type:",
   benign=True)
+
+M("C10-default-ctor-last-param", "C10", "src/cppparser/cppStructType.cxx",
+  "        ftype->_parameters->_parameters.front()->_initializer != nullptr) {", "        ftype->_parameters->_parameters.back()->_initializer != nullptr) {",
+  expect="R10.3|get_default_constructor|callable-without-arguments")
+M("C10-benign-default-ctor-index0", "C10", "src/cppparser/cppStructType.cxx",
+  "    if (ftype->_parameters->_parameters.size() == 0 ||\n        ftype->_parameters->_parameters.front()->_initializer != nullptr) {", "    if (ftype->_parameters->_parameters.empty() ||\n        ftype->_parameters->_parameters[0]->_initializer != nullptr) {",
+  benign=True)
+M("C10-copy-finder-takes-move", "C10", "src/cppparser/cppStructType.cxx",
+  "    if ((ftype->_flags & CPPFunctionType::F_copy_constructor) != 0) {\n      return inst;", "    if ((ftype->_flags & CPPFunctionType::F_move_constructor) != 0) {\n      return inst;",
+  expect="R10.3|get_copy_constructor|selected-by")
+M("C10-move-flag-polarity", "C10", "src/cppparser/cppInstance.cxx",
+  "              if (flags & CPPFunctionType::F_constructor) {\n                if (ref_type->_value_category == CPPReferenceType::VC_rvalue) {", "              if (flags & CPPFunctionType::F_constructor) {\n                if (ref_type->_value_category != CPPReferenceType::VC_rvalue) {",
+  expect="R10.3|check_for_constructor|F_move_constructor|value-category")
+
+M("C10-copy-ctor-exactly-one-param", "C10", "src/cppparser/cppInstance.cxx",
+  "        if (!params->_parameters.empty() && !params->_includes_ellipsis &&\n            (params->_parameters.size() == 1 ||\n             params->_parameters[1]->_initializer != nullptr)) {",
+  "        if (params->_parameters.size() == 1 && !params->_includes_ellipsis) {",
+  expect="R10.3|check_for_constructor|F_copy_constructor|defaulted-extra-parameters-allowed")
+M("C10-copy-ctor-no-param-check", "C10", "src/cppparser/cppInstance.cxx",
+  "        if (!params->_parameters.empty() && !params->_includes_ellipsis &&\n            (params->_parameters.size() == 1 ||\n             params->_parameters[1]->_initializer != nullptr)) {",
+  "        if (!params->_includes_ellipsis) {",
+  expect="R10.3|check_for_constructor|F_copy_constructor|first-parameter-exists")
